@@ -487,6 +487,10 @@ def k2b_modules(rep: Report, tier: str) -> None:
             obligations += 1
             found.setdefault(f"module {mid}: reader/writer token kinds differ", ([str(e)], {}))
             continue
+        except Exception as e:  # noqa: BLE001  -- the real (de)serialisers / fix-up failing on a real module interface
+            obligations += 1
+            found.setdefault(f"module interface: round trip raises {type(e).__name__}", ([mid, str(e)[:200]], {}))
+            continue
         for label, a, b in (("FF round trip (tokens)", t1, t2), ("JSON round trip seen through FF tokens", t1, t3), ("FF round trip seen through JSON", j1, j2)):
             obligations += 1
             eqs: list = []
